@@ -69,6 +69,12 @@ static std::string doc_op(Document& d, int op) {
     }
   }
 }
+static const char kSharedText[] =
+    "{\"a\":[1,2,{\"b\":\"s\"}],\"c\":1.5,\"w\":{\"k0\":0,\"k1\":1,\"k2\":2,\"k3\":3,\"k4\":4,\"k5\":5,\"k6\":6,\"k7\":7,\"k8\":8,\"k9\":9,\"k10\":10,\"k11\":11,\"k12\":12,"
+    "\"k13\":13,\"k14\":14,\"k15\":15,\"k16\":16,\"k17\":17,\"k18\":18,\"k19\":19,\"k20\":20,\"k21\":21,\"k22\":22,\"k23\":23}}";
+static const char kSharedOther[] =
+    "{\"w\":{\"k23\":23,\"k0\":0,\"k1\":1,\"k2\":2,\"k3\":3,\"k4\":4,\"k5\":5,\"k6\":6,\"k7\":7,\"k8\":8,\"k9\":9,\"k10\":10,\"k11\":11,\"k12\":12,"
+    "\"k13\":13,\"k14\":14,\"k15\":15,\"k16\":16,\"k17\":17,\"k18\":18,\"k19\":19,\"k20\":20,\"k21\":21,\"k22\":22},\"c\":1.5,\"a\":[1,2,{\"b\":\"s\"}]}";
 static std::string ro_op(const Document& d, int op) {
   switch (op) {
     case 0: return std::string("T") + (d.IsObject() ? "o" : "-") + std::to_string(d.Size()) + (d.FindMember("c")->value.IsDouble() ? "d" : "-") + std::to_string(d.FindMember("c")->value.GetDouble());
@@ -90,10 +96,28 @@ static std::string ro_op(const Document& d, int op) {
       return std::string("S") + wb.ToString();
     }
     case 6: return "D" + d.Dump();
-    default: {
+    case 7: {
       Document other;
-      other.Parse("{\"c\":1.5,\"a\":[1,2,{\"b\":\"s\"}]}");
+      other.Parse(kSharedOther);
       return std::string("E") + (d == other ? "1" : "0");
+    }
+    case 8: {
+      // keyed lookups that HIT at different positions of a wide object (a per-object lookup cache would be written here)
+      const Node& w = d["w"];
+      std::string s = "W";
+      for (const char* k : {"k3", "k17", "k23", "k0", "k17"}) {
+        auto it = w.FindMember(k);
+        s += it != w.MemberEnd() ? std::to_string(it->value.GetInt64()) : "m";
+      }
+      return s;
+    }
+    default: {
+      const Node& w = d["w"];
+      std::string s = "w";
+      for (const char* k : {"k22", "k1", "k16", "nope", "k9"}) s += w.HasMember(k) ? std::to_string(w[k].GetInt64()) : "m";
+      const Node* n = d.AtPointer(JsonPointer({JsonPointerNode("w"), JsonPointerNode("k12")}));
+      s += n ? std::to_string(n->GetInt64()) : "?";
+      return s;
     }
   }
 }
@@ -103,7 +127,7 @@ int main(int argc, char** argv) {
   vr::Runner R(args);
   const bool quick = R.quick();
   const int rounds = quick ? 20 : 200;
-  const int NA = 8, NB = 8;
+  const int NA = 8, NB = 10;
   vr::Family fa, fb, fbm, fc;
   fa.name = "TA_independent_documents";
   fa.count = (uint64_t)NA * NA * rounds;
@@ -114,7 +138,7 @@ int main(int argc, char** argv) {
   fb.count = (uint64_t)NB * NB * rounds;
   fb.chunk = 4;
   fb.group = "TB";
-  fb.rule = "scenario B under TSan: 3 threads performing read-only operations on ONE shared document; every ordered pair of operations from {type tests/getters, iteration, FindMember/HasMember hit+miss, operator[] hit+miss, AtPointer, Serialize into own buffer, Dump, ==} x rounds";
+  fb.rule = "scenario B under TSan: 3 threads performing read-only operations on ONE shared document; every ordered pair of operations from {type tests/getters, iteration, FindMember/HasMember hit+miss, operator[] hit+miss, AtPointer, Serialize into own buffer, Dump, ==, keyed lookups hitting different positions of a 24-member object (two sets)} x rounds";
   fbm = fb;
   fbm.name = "TB_shared_readonly_document_with_map";
   fbm.group = "TBm";
@@ -153,8 +177,11 @@ int main(int argc, char** argv) {
       int o1 = (int)(idx % NB), o2 = (int)((idx / NB) % NB);
       if (ctx.want_sample) ctx.sample("ops " + std::to_string(o1) + "," + std::to_string(o2));
       Document shared;
-      shared.Parse("{\"a\":[1,2,{\"b\":\"s\"}],\"c\":1.5}");
-      if (f.name.size() > 30) shared.CreateMap(shared.GetAllocator());
+      shared.Parse(kSharedText);
+      if (f.name.size() > 30) {
+        shared.CreateMap(shared.GetAllocator());
+        shared["w"].CreateMap(shared.GetAllocator());
+      }
       const Document& cd = shared;
       const int T = 3;
       Barrier bar(T);
